@@ -14,10 +14,28 @@ import (
 )
 
 func init() {
-	Register(&Property{ID: "C08", Run: runC08, Strata: strataC08})
+	Register(&Property{ID: "C08", Run: runC08, Strata: strataC08, Sweep: sweepC08})
 }
 
-var c08Faults = []FaultKind{FStall, FEOF, FIOErr, FOversize, FWriteErr, FShortWrite, FCancelBefore, FCancelAfterWrite, FCancelAt, FCtxDeadline, FNotConnected, FNilRequest, FFlushFail}
+// sweepC08: {stall, EOF, I/O error} x client kind x function x {normal, exception} x every prefix length 0..13 of the
+// reply to a small request (prefix delivered in one read). Complete for replies of up to 14 bytes.
+func sweepC08(tier string) []Stratum {
+	var out []Stratum
+	for fi := 0; fi < 3; fi++ { // c08Faults[0..2] = stall, eof, ioerr
+		for kind := 0; kind < 3; kind++ {
+			for fc := range AllFCs {
+				for _, exc := range []int32{0, 4} {
+					for p := int32(0); p < 14; p++ {
+						out = append(out, Stratum{Prefix: []int32{int32(fi), int32(kind), int32(fc)}, Named: map[string]int32{"sizeclass": 3, "exc": exc, "prefix": p, "cutmode": 0, "gap": 0}})
+					}
+				}
+			}
+		}
+	}
+	return out
+}
+
+var c08Faults = []FaultKind{FStall, FEOF, FIOErr, FOversize, FWriteErr, FShortWrite, FCancelBefore, FCancelAfterWrite, FCancelAt, FCtxDeadline, FNotConnected, FNilRequest, FFlushFail, FDialFail}
 
 // strata: (fault kind index, client kind, fc index): the first three draws of genC08.
 func strataC08(tier string) [][]int32 {
@@ -40,6 +58,13 @@ func genC08(rc *RunCtx) (*C1, bool) {
 		return sc, false
 	}
 	sc.Fault = fault
+	if fault == FDialFail {
+		if sc.Kind == KSerial {
+			sc.Fault = FNotConnected
+		} else {
+			sc.TypedNilDial = t.Choose(2) == 1
+		}
+	}
 	if fault == FFlushFail {
 		if sc.Kind != KSerial {
 			sc.Fault = FIOErr // no flusher on network clients: plain I/O error instead
@@ -53,6 +78,9 @@ func genC08(rc *RunCtx) (*C1, bool) {
 	// read timeout knob: keep stalls cheap most of the time
 	sc.ReadTimeout = []time.Duration{20 * time.Millisecond, 5 * time.Millisecond, 100 * time.Millisecond, 2 * time.Second, 500 * time.Millisecond}[t.Pick(4, 3, 2, 1, 1)]
 	prefix := func() int {
+		if t.Has("prefix") {
+			return t.ChooseAs("prefix", n)
+		}
 		switch t.Pick(3, 1, 1, 1) {
 		case 0:
 			return t.Choose(n)
@@ -74,6 +102,17 @@ func genC08(rc *RunCtx) (*C1, bool) {
 		}
 		sc.FaultGap = gapOf(t)
 		sc.ErrWithData = p > 0 && t.Chance(1, 4)
+		if sc.Fault == FStall && p >= 3 && sc.ReadTimeout <= 100*time.Millisecond && !t.Has("prefix") && t.Chance(1, 3) {
+			// slow drip: the prefix trickles in over more than the whole read timeout, every gap well below it
+			k := 3 + t.Choose(min(4, p-2))
+			sc.Chunks = nil
+			left := p
+			for i := 0; i < k; i++ {
+				n := left / (k - i)
+				sc.Chunks = append(sc.Chunks, Chunk{N: n, Gap: sc.ReadTimeout * 2 / 5})
+				left -= n
+			}
+		}
 		if sc.Fault == FCancelAt || sc.Fault == FCtxDeadline {
 			// The transport stalls after the prefix; the only ways out are the cancel and the read timeout.
 			// Both are polled by the client once per loop iteration with one select; if both became ready
@@ -163,12 +202,14 @@ func checkC08(rc *RunCtx, sc *C1, out *C1Outcome) {
 		rc.Violate("hang", base, "Do did not return (hang=%v overstep=%v) after %v simulated", out.Hang, out.OverStep, rc.SimTime)
 		return
 	}
-	bound := sc.WriteTimeout + sc.ReadTimeout + time.Second
+	// The documented bound: ReadTimeout is the total time reading the reply may take. The transport's writes never
+	// block here, so the call may last the read timeout plus one blocking read (plus the serial client's 30 ms settle sleep).
+	bound := sc.ReadTimeout + 500*time.Microsecond + time.Millisecond
 	if sc.Kind == KSerial {
-		bound += 30*time.Millisecond + sc.PortTimeout
+		bound = sc.ReadTimeout + sc.PortTimeout + 30*time.Millisecond + time.Millisecond
 	}
 	if out.Elapsed > bound {
-		rc.Violate("unbounded", base, "Do returned after %v simulated, bound %v", out.Elapsed, bound)
+		rc.Violate("unbounded", fmt.Sprintf("client=%s|fault=%s", sc.Kind, sc.Fault), "Do returned after %v simulated; read timeout %v, bound %v", out.Elapsed, sc.ReadTimeout, bound)
 	}
 	// reads that returned no data after the whole prefix had been handed over
 	emptyAfterPrefix, sawIOErr, reads, writes := 0, false, 0, 0
@@ -272,8 +313,11 @@ func checkC08(rc *RunCtx, sc *C1, out *C1Outcome) {
 		if fired && !errors.Is(out.Err, context.DeadlineExceeded) {
 			rc.Violate("misclassified", base+"|err="+errType, "context deadline passed at %v (call took %v) but Do returned %T %q", sc.CancelAt, out.Elapsed, out.Err, out.Err)
 		}
-	case FNotConnected, FNilRequest:
+	case FNotConnected, FNilRequest, FDialFail:
 		fired = true
+		if sc.Fault == FDialFail && out.ConnErr == nil {
+			rc.Violate("connect_succeeded", base, "Connect returned nil although dialling failed")
+		}
 		if out.Elapsed != 0 || reads+writes > 0 {
 			rc.Violate("not_immediate", base, "call should fail immediately but took %v and made %d transport calls", out.Elapsed, reads+writes)
 		}
